@@ -51,9 +51,11 @@ def attach (h : Hexital F) (m : Member F) : PyM (Hexital F) :=
       .ok { h with indicators := dset m.tree.name { tree := m.tree, mgrKey := tf } h.indicators }
     else do
       let dm ← h.manager defaultKey
-      -- a new manager over a deep copy of the default manager's (already processed) candles
+      -- a new manager over a deep copy of the default manager's candles, handed over RAW
+      -- (`recover_clean_values`, `clean_values = {}`, `reset_candle`): every manager converts its own
       let cfg : MgrCfg := { h.cfg with tf := m.tfSecs }
-      let nm ← Manager.init cfg dm.candles
+      let raw := dm.candles.map fun c => ({ c.recoverClean with clean := none } : Candle F).reset
+      let nm ← Manager.init cfg raw
       return { h with managers := dset tf nm h.managers,
                       indicators := dset m.tree.name { tree := m.tree, mgrKey := tf } h.indicators }
 
@@ -106,20 +108,16 @@ def removeIndicator (h : Hexital F) (name : Option String) : PyM (Hexital F) := 
   | some n => return { h with indicators := derase n h.indicators }
   | none => return h
 
-/-- `Hexital.append(candles)`: every manager appends (default first), then everything is
-calculated.  `shared = true` models `Candle` objects handed in by the caller: the default manager
-keeps those very objects, so the later managers deep-copy them AFTER the default manager's tasks
-have run (conversion happens in place). -/
-def append (h : Hexital F) (new : List (Candle F)) (shared : Bool) : PyM (Hexital F) := do
-  let (h, _) ← h.managers.foldlM (fun (acc : Hexital F × List (Candle F)) (kv : String × Manager F) => do
-      let (h, cur) := acc
-      let m ← h.manager kv.1
-      let m' ← m.append cur
-      let h := h.setManager kv.1 m'
-      -- objects shared with the default manager carry whatever its tasks did to them
-      let cur' := if shared && kv.1 == defaultKey && m.cfg.tf.isNone && m.cfg.ha && !cur.isEmpty
-        then m'.candles.drop (m'.candles.length - cur.length) else cur
-      return (h, cur')) (h, new)
+/-- `Hexital.append(candles)`: every manager appends – the default manager (which keeps and
+converts the caller's `Candle` objects) LAST, so every other manager copies pristine input – then
+everything is calculated. -/
+def append (h : Hexital F) (new : List (Candle F)) : PyM (Hexital F) := do
+  let keys := h.managers.map (·.1)
+  let order := keys.drop 1 ++ keys.take 1
+  let h ← order.foldlM (fun (h : Hexital F) (k : String) => do
+      let m ← h.manager k
+      let m' ← m.append new
+      return h.setManager k m') h
   h.calculate none
 
 /-- `Hexital.reading(name, index)` -/
